@@ -494,11 +494,14 @@ impl<'a> Info<'a> {
         result
     }
     pub fn encode<'d, 's>(&self, mut _p: Packer<'d, 's>) -> Result<&'d [u8], CapacityError> {
-        assert!(self.password.is_some());
-        assert!(self.client_version.is_some());
+        assert!(self.password.is_some() || self.client_version.is_none());
         _p.write_string(self.version)?;
-        _p.write_string(self.password.unwrap())?;
-        _p.write_int(self.client_version.unwrap())?;
+        if let Some(v) = self.password {
+            _p.write_string(v)?;
+        }
+        if let Some(v) = self.client_version {
+            _p.write_int(v)?;
+        }
         Ok(_p.written())
     }
 }
